@@ -7,6 +7,49 @@ HERE = os.path.dirname(os.path.dirname(os.path.abspath(__file__)))
 PY = "PYTHONPATH=/repo PYTHONHASHSEED=0 /venv/bin/python run.py"
 
 CHECKS = {
+    "C09": dict(
+        category="exploration",
+        text="Sampled 2-safety check: worlds that use randomness on purpose (deadline variance, Poisson/Gamma arrivals, conditionals, runtime variance, multi-resource pools, closed loop; EDF/FIFO/LSF/Clockwork) are run through `python main.py --flagfile ... --random_seed=N` twice in fresh processes with different PYTHONHASHSEED; Determinism.tla walks both CSV traces in lock-step and requires equal observations (everything except true_runtime and echoed file names), classifying the first divergence; controls: equal hash seeds, and different random seeds (must differ).",
+        design_ref="DESIGN.md §5 C09",
+        note="a model cannot prove the absence of hidden nondeterminism: sampled pairs only; trusted: TLC as comparator, CSV splitting",
+        technique="TLA+ lock-step comparator (Determinism.tla) over pairs of traces of fresh main.py processes",
+    ),
+    "C10": dict(
+        text="Decision.tla: ValidDecision(call) = returns normally, one decision per task, only offered / previously scheduled and not started tasks, planners answer every offered task, existing pool/worker, strategy of the task, time not in the past / before release, CapacityOK at every planned instant (with existence of a worker assignment for pool-only placements, per-policy interval conventions), side-effect freedom; call records from real simulations (EDF, FIFO, LSF, ILP, TetriSched-Gurobi/CPLEX, Clockwork) and from direct calls of every policy incl. Z3 on mixed RUNNING/SCHEDULED/RELEASED/VIRTUAL states reached by a hostile simulation prefix are judged by TLC; hand-written satisfiable / falsifiable records sanity-check the contract.",
+        design_ref="DESIGN.md §5 C10",
+        note="trusted: TLC, tracer projection; solver instances limited by the restricted Gurobi / CPLEX CE licences; preemptive mode, batching and Clockwork profile loading not exercised",
+        technique="TLA+ decision contract (Decision.tla) evaluated by TLC on recorded calls of the real policies",
+    ),
+    "C11": dict(
+        text="PlanRules.tla: PrecedenceOK on (T1) the plans returned by ILP / TetriSched-Gurobi / Z3 for chains, forks, joins, diamonds offered wholly, partly or with running / scheduled parents, (T2) every solution of the captured optimisation model's solution pool, and (R) TLC enumerates the plans violating ONLY precedence inside the horizon and each must be infeasible when fixed in the captured model.",
+        design_ref="DESIGN.md §5 C11",
+        note="trusted: TLC, mapping of solver variable names to tasks, Gurobi/z3 for feasibility of fixed plans; pool capped, horizon-bounded",
+        technique="TLA+ planning rules (PlanRules.tla) checked by TLC on returned plans, model solution pools and spec-enumerated violating plans fixed in the real solver model",
+    ),
+    "C12": dict(
+        text="PlanRules.tla: Admit / HopelessHandled / DeadlineOK on returned plans of EDF, FIFO, Clockwork, ILP, both TetriSched formulations over deadlines {past, tight-1, tight, tight+1, loose}; every pool solution of the captured models; TLC-enumerated plans violating ONLY the deadline must be infeasible in the model; end-to-end runs of the planners with exact runtimes: every completed task completed by its deadline.",
+        design_ref="DESIGN.md §5 C12",
+        note="as C11; ILP in task-by-task mode as the property states",
+        technique="TLA+ planning rules (PlanRules.tla) checked by TLC on returned plans, model solution pools, spec-enumerated late plans fixed in the real solver model, and end-to-end traces",
+    ),
+    "C14": dict(
+        text="PlanSpace.tla is a state machine whose reachable states are the feasible partial plans of one instance in the planner's own decision space; for a recorded ILP answer TLC searches (branch and bound via CONSTRAINT) for a plan with more goodput (C14_NoBetterPlan, the counterexample is the better plan), for TetriSched answers it checks one-step maximality (C14_Maximal); the decision space is cross-checked against the captured Gurobi model by fixing every syntactic plan.",
+        design_ref="DESIGN.md §5 C14",
+        note="trusted: TLC, instance encoding; bound: <=4 offered tasks, <=2 workers, <=2 strategies, horizon <=12, discretisation 1-3",
+        technique="TLA+ plan-space state machine (PlanSpace.tla) model-checked per recorded (instance, answer) of the real planners",
+    ),
+    "C15": dict(
+        text="Clockwork.tla transcribes the policy (per-model per-strategy deadline-sorted queues, admission, expiry, batch extraction, inference loop, both goals); invariants full batch / same model / loaded / fits / on time / placed once / late cancelled are model-checked over all small arrival histories; the dumped state graphs and -simulate behaviours are replayed on a live ClockworkScheduler kept across schedule() calls (exact batch equality), and seeded random histories are record-checked by TLC.",
+        design_ref="DESIGN.md §5 C15",
+        note="trusted: TLC, the harness applying placements as simulator.py does; run_load (profile loading/eviction) not covered",
+        technique="TLA+ state machine (Clockwork.tla) model-checked with TLC + spec->code replay on the live policy + record validation",
+    ),
+    "C20": dict(
+        text="Strl.tla gives the semantics of STRL trees (Valid, Utility, Best by brute force, ModelSat); a stand-alone C++ driver built from /repo's tetrisched sources with a sequential TBB shim compiles each generated tree with the real parse()/passes, dumps the model, z3 enumerates its solutions (gurobi for the optimum), each solution is read back through populateResults() and TLC checks ModelSat, capacity, Choose exactness, Min/Max/LessThan structure, utility = objective, Best = optimum with every subset of passes, coarser discretisation <= fine.",
+        design_ref="DESIGN.md §5 C20",
+        note="trusted: TLC; external solvers only for completeness of the enumeration (every solution re-checked by TLC); solver back-ends and Python bindings cannot be built here",
+        technique="TLA+ semantics of STRL (Strl.tla) checked by TLC against models compiled by the real C++ library and their read-back solutions",
+    ),
     "C13": dict(
         text="Greedy.tla defines Plan(kind, instance) (stable sort by the policy key, first fit over strategies x pools) and NoInversion; TLC proves NoInversion(Plan) for every instance of a small bound (each instance an initial state); the same instances and larger random ones are built as real tasks / single-worker pools and given to the real EDF/FIFO/LSF schedulers, whose answers TLC judges with NoInversion (and compares with Plan).",
         design_ref="DESIGN.md §5 C13",
